@@ -32,6 +32,8 @@ DEFAULT = {
     "p_go_early": 0.0,       # probability that a frame's first transition is declared before its auxiliary clauses (it then still
                              # fires while a conditional auxiliary of that frame suspends the frames below)
     "p_go_me_parent": 0.0,   # probability that a frame with children gets a periodic forced re-entry ('go me if recurred >= k')
+    "p_slave_order": 0.0,  # probability that a slave framer is declared with an explicit 'in front' / 'in back'
+    "p_env_field": 0.0,  # probability that an environment write goes to a field other than 'value' (a field added since a snapshot)
     "p_abort_end": 0.0,  # probability that the clock framer ends the run with 'bid abort all' instead of stopping the framers first
     "p_staged": 0.0,     # probability of a master framer walking a slave through a drawn sequence of fiats, one per frame
 }
@@ -257,7 +259,14 @@ def gen_program(g, cfg=None):
         framers.append({"name": nm, "sched": "aux", "order": None, "period": None, "pdec": "0", "first": frames[0]["name"], "frames": frames})
     for i, nm in enumerate(slave_names):
         frames = _frames(g, cfg, "s%d" % i, [], P, [], [], is_aux=True)
-        framers.append({"name": nm, "sched": "slave", "order": None, "period": None, "pdec": "0", "first": frames[0]["name"], "frames": frames})
+        so = None
+        if cfg.get("p_slave_order", 0.0):       # 'be slave in front / back' is legal and must not put the slave into the skedder's run order
+            import hashlib
+            import random as _random
+            so = _random.Random(int(hashlib.sha256(repr(g.getstate()).encode()).hexdigest()[:16], 16)).choice([None, "front", "back"]) if True else None
+            if _random.Random(int(hashlib.sha256((repr(g.getstate()) + "p").encode()).hexdigest()[:16], 16)).random() >= cfg["p_slave_order"]:
+                so = None
+        framers.append({"name": nm, "sched": "slave", "order": so, "period": None, "pdec": "0", "first": frames[0]["name"], "frames": frames})
     if staged:
         # the life cycle idiom of the shipped slave plans: ready / start / run / stop ... in successive frames, the environment
         # (and the slave's own actions) changing the guarded shares in between
@@ -294,6 +303,9 @@ def gen_program(g, cfg=None):
                 for _ in range(g.randint(1, 2)):
                     counter += 1
                     writes.append([g.choice(SHARES), "value", g.choice([g.randint(0, 4), g.randint(0, 4), counter])])
+                    if cfg.get("p_env_field", 0.0) and g.random() < cfg["p_env_field"]:
+                        # a write that adds (or rewrites) another field of the share and leaves 'value' alone
+                        writes[-1][1] = g.choice(["extra", "extra", "more"])
                 table[str(t)] = writes
         env = {"0": table}
         envf = {"name": "zenv", "sched": "active", "order": g.choice(["front", "back", None]), "period": None, "pdec": "0", "first": "zenv0",
